@@ -5,7 +5,7 @@
   `validate()`; `H` is the digest function (SHA-1 is a parameter, so "a changed byte is detected"
   carries the explicit hypothesis that `H` separates the two piece contents).
 -/
-import Torf.Lemmas.VerifyCollect
+import Torf.Lemmas.VerifyRun
 namespace Torf.C02
 open Torf Torf.Missing Torf.Verify
 
@@ -146,5 +146,144 @@ example : (verifySeq (fun p : List Nat => p) 3 [2, 4, 0, 2]
 example : (verifySeq (fun p : List Nat => p) 3 [2, 4, 0, 2]
     [some [1, 2], none, some [], some [7, 8]] [[1, 2, 3], [4, 5, 6], [7, 8]]
     false false true).1 = .error (.read 1) := by decide
+
+/-! ### the wrong kind of path -/
+
+/-- **Wrong path kind.** A single-file torrent whose path is a directory is reported as
+    VerifyIsDirectoryError, a multi-file torrent whose path is not a directory as
+    VerifyNotDirectoryError: raised without a callback; with a callback it is handed to the
+    callback once (`pieces_done = 0`) and `verify` returns `False`. -/
+theorem C02_wrong_path_kind (H : List α → δ) (L : Nat) (sizes : List Nat)
+    (disk : List (Option (List α))) (stored : List δ) :
+    verifySeq H L sizes disk stored false true true = (.error .isDir, []) ∧
+    verifySeq H L sizes disk stored true true true =
+      (.ok false, [⟨0, 0, none, some .isDir⟩]) ∧
+    verifySeq H L sizes disk stored false false false = (.error .notDir, []) ∧
+    verifySeq H L sizes disk stored true false false =
+      (.ok false, [⟨0, 0, none, some .notDir⟩]) := by
+  refine ⟨?_, ?_, ?_, ?_⟩ <;> simp [verifySeq]
+
+/-! ### with a callback -/
+
+/-- **Callback run.** For a proper path, any layout, piece length and disk state (no bad
+    zero-length entry, as in C10) and a `pieces` field of the right length, `verify` with a
+    (passive) callback
+    * never raises and returns exactly `SpecOk`;
+    * hands the callback, in call order, exactly one ReadError / VerifyFileSizeError per bad file
+      (in file order) …
+    * … and exactly one VerifyContentError per piece that carries data and whose digest differs
+      from the stored one (in piece order), naming `corruptFiles` of that piece, in a call whose
+      `piece_index` is that piece;
+    * hands it no other kind of exception;
+    * reports at least one exception whenever it returns `False`;
+    * and every call has `pieces_done = piece_index + 1 ≥ 1`, `piece_index < nPieces`. -/
+theorem C02_callback (H : List α → δ) (L : Nat) (hL : 0 < L) (sizes : List Nat)
+    (disk : List (Option (List α))) (stored : List δ) (single pathIsDir : Bool)
+    (hp : ProperPath single pathIsDir) (hyp : NoBadEmpty sizes disk = true)
+    (hlen : stored.length = nPieces L sizes.sum) :
+    let r := verifySeq H L sizes disk stored true single pathIsDir
+    r.1 = .ok (SpecOk H L sizes disk stored) ∧
+    (excsOf r.2).filter isFileErr = (badFiles sizes disk).map excOf ∧
+    (excsOf r.2).filter isContentErr =
+      (mismatches H L sizes disk stored).map (fun p => VErr.content p (corruptFiles L sizes p)) ∧
+    (∀ e ∈ excsOf r.2, isFileErr e = true ∨ isContentErr e = true) ∧
+    (∀ c ∈ r.2, ∀ p fs, c.exc = some (.content p fs) → c.piece = p) ∧
+    (SpecOk H L sizes disk stored = false → ∃ c ∈ r.2, c.exc.isSome = true) ∧
+    (∀ c ∈ r.2, 1 ≤ c.done ∧ c.piece < nPieces L sizes.sum ∧ c.done = c.piece + 1) := by
+  obtain ⟨items, run⟩ := run_exists H L hL sizes disk stored hyp hlen
+  intro r
+  have hr : r = (.ok (SpecOk H L sizes disk stored),
+      items.zipIdx.flatMap (itemCalls H L sizes stored)) :=
+    verifySeq_cb H L sizes disk stored items hlen run single pathIsDir hp
+  rw [hr]
+  refine ⟨rfl, ?_, ?_, ?_, ?_, ?_, ?_⟩
+  · rw [excs_file, run.rep]
+  · rw [excs_content H L sizes stored items 0 run.clean, mismatches_eq, run.data]
+  · exact excs_kinds H L sizes stored _
+  · intro c hc p fs he
+    exact ((calls_progress H L sizes stored items c hc).2.2 p fs he).1.symm
+  · intro hs
+    have hne := run.exc hs
+    obtain ⟨e, he⟩ := List.exists_mem_of_ne_nil _ hne
+    obtain ⟨c, hc, hce⟩ := List.mem_filterMap.mp he
+    exact ⟨c, hc, by rw [hce]; rfl⟩
+  · intro c hc
+    obtain ⟨h1, h2, _⟩ := calls_progress H L sizes stored items c hc
+    rw [run.len] at h2
+    exact ⟨by omega, h2, h1⟩
+
+/-! ### without a callback -/
+
+/-- **First exception.** Without a callback `verify` raises the first exception the callback
+    would have been handed, and returns `True` if there is none. -/
+theorem C02_nocb_first_exception (H : List α → δ) (L : Nat) (hL : 0 < L) (sizes : List Nat)
+    (disk : List (Option (List α))) (stored : List δ) (single pathIsDir : Bool)
+    (hp : ProperPath single pathIsDir) (hyp : NoBadEmpty sizes disk = true)
+    (hlen : stored.length = nPieces L sizes.sum) :
+    verifySeq H L sizes disk stored false single pathIsDir =
+      (match (excsOf (verifySeq H L sizes disk stored true single pathIsDir).2).head? with
+        | some e => .error e
+        | none => .ok true, []) := by
+  obtain ⟨items, run⟩ := run_exists H L hL sizes disk stored hyp hlen
+  rw [verifySeq_cb H L sizes disk stored items hlen run single pathIsDir hp,
+    verifySeq_nocb H L sizes disk stored items hlen run single pathIsDir hp]
+  rfl
+
+/-- **Only documented outcomes.** Without a callback `verify` returns `True` or raises a
+    ReadError / VerifyFileSizeError naming a bad file or a VerifyContentError for a piece whose
+    digest differs — never `False`, never an undocumented exception, never a path-kind error. -/
+theorem C02_nocb_documented (H : List α → δ) (L : Nat) (hL : 0 < L) (sizes : List Nat)
+    (disk : List (Option (List α))) (stored : List δ) (single pathIsDir : Bool)
+    (hp : ProperPath single pathIsDir) (hyp : NoBadEmpty sizes disk = true)
+    (hlen : stored.length = nPieces L sizes.sum) :
+    let r := (verifySeq H L sizes disk stored false single pathIsDir).1
+    r = .ok true ∨
+    (∃ f, (f, ErrKind.read) ∈ badFiles sizes disk ∧ r = .error (.read f)) ∨
+    (∃ f, (f, ErrKind.size) ∈ badFiles sizes disk ∧ r = .error (.size f)) ∨
+    (∃ p ∈ mismatches H L sizes disk stored, r = .error (.content p (corruptFiles L sizes p))) := by
+  intro r
+  have h1 := C02_nocb_first_exception H L hL sizes disk stored single pathIsDir hp hyp hlen
+  obtain ⟨_, hfile, hcont, hkinds, _⟩ :=
+    C02_callback H L hL sizes disk stored single pathIsDir hp hyp hlen
+  have hr : r = (match (excsOf (verifySeq H L sizes disk stored true single pathIsDir).2).head? with
+        | some e => VResult.error e
+        | none => VResult.ok true) := by
+    show (verifySeq H L sizes disk stored false single pathIsDir).1 = _
+    rw [h1]
+  generalize excsOf (verifySeq H L sizes disk stored true single pathIsDir).2 = es
+    at hr hfile hcont hkinds
+  cases es with
+  | nil => left; exact hr
+  | cons e es =>
+    right
+    simp only [List.head?_cons] at hr
+    rcases hkinds e List.mem_cons_self with hk | hk
+    · have hmem : e ∈ (badFiles sizes disk).map excOf := by
+        rw [← hfile]; exact List.mem_filter.mpr ⟨List.mem_cons_self, hk⟩
+      obtain ⟨⟨f, k⟩, hb, rfl⟩ := List.mem_map.mp hmem
+      cases k with
+      | read => left; exact ⟨f, hb, hr⟩
+      | size => right; left; exact ⟨f, hb, hr⟩
+    · right; right
+      have hmem : e ∈ (mismatches H L sizes disk stored).map
+          (fun p => VErr.content p (corruptFiles L sizes p)) := by
+        rw [← hcont]; exact List.mem_filter.mpr ⟨List.mem_cons_self, hk⟩
+      obtain ⟨p, hp', rfl⟩ := List.mem_map.mp hmem
+      exact ⟨p, hp', hr⟩
+
+/-! non-vacuity of the hypotheses of `C02_callback` / `C02_nocb_documented` /
+    `C02_nocb_first_exception`, and a concrete callback trace: file 1 is missing (pieces 0 and 1
+    carry no data), piece 2 carries data but its digest differs from the stored one -/
+example : ProperPath false true ∧
+    NoBadEmpty [2, 4, 0, 2] [some [1, 2], none, some [], some [7, 9]] = true ∧
+    [[1, 2, 3], [4, 5, 6], [7, 8]].length = nPieces 3 [2, 4, 0, 2].sum :=
+  ⟨rfl, by decide, by decide⟩
+example : verifySeq (fun p : List Nat => p) 3 [2, 4, 0, 2]
+    [some [1, 2], none, some [], some [7, 9]] [[1, 2, 3], [4, 5, 6], [7, 8]]
+    true false true =
+    (.ok false, [⟨1, 0, none, some (.read 1)⟩, ⟨2, 1, none, none⟩,
+                 ⟨3, 2, some [7, 9], some (.content 2 [2, 3])⟩]) := by decide
+example : badFiles [2, 4, 0, 2] [some [1, 2], none, some [], some [7, 9]] = [(1, .read)] := by
+  decide
 
 end Torf.C02
